@@ -5,7 +5,7 @@ use rustc_middle::mir::{
     TerminatorKind, UnwindAction,
 };
 use rustc_middle::ty::print::with_no_trimmed_paths;
-use rustc_middle::ty::{self, Instance, Ty, TyCtxt, TypingEnv};
+use rustc_middle::ty::{self, Instance, Ty, TyCtxt, TypeVisitableExt, TypingEnv};
 use rustc_span::def_id::{DefId, LocalDefId};
 use rustc_span::Span;
 
@@ -467,8 +467,40 @@ impl<'a, 'tcx> Cx<'a, 'tcx> {
     }
 }
 
+fn rng_trait(tcx: TyCtxt<'_>) -> Option<DefId> {
+    tcx.all_traits_including_private().find(|d| { let p = path_of(tcx, *d); p == "rand_core::RngCore" || p == "rand::RngCore" })
+}
+
+/// does the type (references, Option<..> peeled) implement rand_core::RngCore?
+fn is_generator<'tcx>(tcx: TyCtxt<'tcx>, env: TypingEnv<'tcx>, tr: DefId, ty: Ty<'tcx>) -> bool {
+    use rustc_infer::infer::TyCtxtInferExt;
+    use rustc_trait_selection::infer::InferCtxtExt;
+    let mut t = ty.peel_refs();
+    for _ in 0..3 {
+        if let ty::Adt(ad, args) = t.kind() {
+            let p = path_of(tcx, ad.did());
+            if p == "std::option::Option" || p == "core::option::Option" {
+                if let Some(a) = args.types().next() {
+                    t = a.peel_refs();
+                    continue;
+                }
+            }
+        }
+        break;
+    }
+    if let ty::Dynamic(preds, ..) = t.kind() {
+        return preds.principal_def_id() == Some(tr);
+    }
+    if t.has_escaping_bound_vars() {
+        return false;
+    }
+    let (infcx, param_env) = tcx.infer_ctxt().build_with_typing_env(env);
+    infcx.type_implements_trait(tr, [t], param_env).must_apply_modulo_regions()
+}
+
 pub fn dump_body<'tcx>(tcx: TyCtxt<'tcx>, ldid: LocalDefId) -> J {
     let did = ldid.to_def_id();
+    let rngtr = rng_trait(tcx);
     let body: &Body<'tcx> = tcx.optimized_mir(did);
     let env = TypingEnv::post_analysis(tcx, did);
     let cx = Cx { tcx, body, env };
@@ -514,6 +546,11 @@ pub fn dump_body<'tcx>(tcx: TyCtxt<'tcx>, ldid: LocalDefId) -> J {
         }
         if let ty::Closure(cd, _) = ty.peel_refs().kind() {
             lv.push(("closure", J::s(path_of(tcx, *cd))));
+        }
+        if let Some(tr) = rngtr {
+            if is_generator(tcx, env, tr, ty) {
+                lv.push(("rng", J::Bool(true)));
+            }
         }
         let peeled = ty.peel_refs();
         match peeled.kind() {
